@@ -46,6 +46,9 @@ def gen_case(seed, tier):
         mode = rng.choice(['max', 'small', 'mixed', 'tiny'])
         lat = rng.choice([0, 0, 0.0001, 0.5 * dmax / L, dmax / L, 3 * dmax / L, 0.3])
         k = rng.randrange(30, 250)
+        if L >= 2200 and substream(seed, f'c20-subms{len(streams)}').random() < 0.12:
+            # thousands of requests that each owe less than a millisecond, several seconds' worth in total
+            mode, k, lat = 'sub-ms', rng.randrange(2500, 4000), rng.choice([0, 0, 0.00001])
         reqs = []
         for _ in range(k):
             if mode == 'max':
@@ -54,6 +57,8 @@ def gen_case(seed, tier):
                 reqs.append(max(1, dmax // 16))
             elif mode == 'tiny':
                 reqs.append(rng.randrange(1, 4))
+            elif mode == 'sub-ms':
+                reqs.append(max(1, L // rng.choice([1100, 2000, 5000])))
             else:
                 reqs.append(rng.randrange(1, dmax + 1))
         streams.append({'reqs': reqs, 'lat': lat, 'lat_kind': rng.choice(['const', 'uniform', 'burst']), 'chain': rng.random() < 0.4,
